@@ -375,7 +375,7 @@ func (x *Exec) havocOneAt(sc *specCtx, e ast.Expr, st *State) {
 				// ghost location g(a, b)
 				var idx []*Term
 				for _, a := range call.Args {
-					idx = append(idx, sc.eval(a).C[0])
+					idx = append(idx, x.ghostIndex(sc.eval(a)))
 				}
 				reg := st.region("ghost."+g.Name, g.Sort)
 				st.setRegion("ghost."+g.Name, storeNested(reg, idx, Fresh("havoc."+g.Name, nestedElem(g.Sort, len(idx)))))
